@@ -123,12 +123,16 @@ func gen1(t *rapid.T) Case {
 	if rapid.IntRange(0, 5).Draw(t, "lookbackref") == 0 {
 		// a backreference (and a literal) evaluated inside a lookbehind, i.e. right to left:
 		// (w)-w(?<=\1) and (w)-w(?<=w-\1) must accept any casing of either copy
-		w := rapid.SliceOfN(rapid.SampledFrom([]rune("abxyABXéÉλΛжЖ")), 1, 3).Draw(t, "lbword")
+		w := rapid.SliceOfN(rapid.SampledFrom(gen.PairLetters), 1, 3).Draw(t, "lbword")
 		var look *ast.Node
 		if rapid.Bool().Draw(t, "lbform") {
 			look = ast.Group(ast.GLookbehind, &ast.Node{K: ast.KBackref, Num: 1})
 		} else {
 			look = ast.Group(ast.GLookbehind, ast.Seq(ast.Lit(w...), ast.Lit('-'), &ast.Node{K: ast.KBackref, Num: 1}))
+		}
+		if rapid.Bool().Draw(t, "lbforward") {
+			// the same word referenced forwards: (w)-\1
+			look = ast.Seq(ast.Lit('-'), &ast.Node{K: ast.KBackref, Num: 1})
 		}
 		wrapped := ast.Seq(ast.Group(ast.GNumbered, ast.Lit(w...)), ast.Lit('-'), ast.Lit(w...), look)
 		wrapped.Kids[0].Num = 1
